@@ -101,7 +101,7 @@ def run(ctx):
     ctx.rule = ("zoo lattices with >=1 plaquette x bond configurations (exhaustive for small E, random otherwise), real and complex variant; "
                 "non-trivial = lattice with >=2 plaquettes and a u with both signs; distinct by (lattice, u)")
     rep = core.guarded_translate(ctx, translate.regenerate_all, "T-int/T-const", dict(kernels=[], tables=[], changed={}))
-    ctx.translated = [k for k in rep["kernels"] if k["kernel"] == "fluxes_to_labels"]
+    core.note_translation(ctx, [k for k in rep["kernels"] if k["kernel"] == "fluxes_to_labels"])
     ctx.run_audit()
     rng = np.random.default_rng(ctx.seed)
     cases = cases_for(ctx, rng)
